@@ -332,6 +332,8 @@ def decide(pid, tier, seed):
         if spec.get("extra"):
             extra = spec["extra"](tier, seed, {"engine": ENGINE, "harness": HARNESS, "driver": DRIVER, "work": WORK, "verif": VERIF, "repo": REPO})
 
+    import scope as scope_mod
+    scope_drift = scope_mod.drift_for(pid, REPO)
     tier_b = set(spec.get("tier_b_kinds", []))
     spec_mm, model_mm, drift_mm, broken_streams = [], [], [], []
     for s in streams:
@@ -379,14 +381,17 @@ def decide(pid, tier, seed):
             reasons.append({"broken": "correspondence (Tier A): implementation differs from the model", "first": model_mm[0]})
         if broken_streams:
             reasons.append({"broken": "correspondence stream did not complete", "streams": broken_streams})
+        if scope_drift:
+            reasons.append({"broken": "model scope: the source holds state that the model does not have (tools/model_scope.json), so the correspondence no longer covers the code's behaviour",
+                            "state_outside_the_model": scope_drift})
         if reasons:
             violations.append((write_replay(pid, "unproved", {"property": pid, "what": "the property is no longer shown to hold; the failing-input search over every explored input found no input on which the implementation contradicts the specification",
                                                               "no_longer_checks": reasons, "tier": tier, "seed": seed,
                                                               "replay": "python3 tools/check.py --replay <this file>  (re-runs the property's check at the recorded tier)"}), " no-failing-input-found"))
 
     # evidence
-    obligations = len(spec["theorems"]) + len(spec["streams"][tier]) + (1 if spec.get("extra") else 0)
-    discharged = sum(1 for v in gate["theorems"].values() if v["discharged"])
+    obligations = len(spec["theorems"]) + len(spec["streams"][tier]) + (1 if spec.get("extra") else 0) + 1
+    discharged = sum(1 for v in gate["theorems"].values() if v["discharged"]) + (0 if scope_drift else 1)
     for sp in spec["streams"][tier]:
         ss = [s for s in streams if s["name"].split("#")[0] == sp["name"]]
         ok = ss and all(s["summary"] is not None and s["harness_rc"] == 0 for s in ss) and not any(
@@ -424,6 +429,7 @@ def decide(pid, tier, seed):
         "stream_totals": agg,
         "streams": [{"name": s["name"], "summary": {k: v for k, v in (s["summary"] or {}).items() if k != "samples"}} for s in streams][:40],
         "model_drift": [m["raw"][:600] for m in drift_mm[:3]],
+        "model_scope": {"baseline": "tools/model_scope.json", "state_outside_the_model": scope_drift},
         "extra": {k: v for k, v in extra.items() if k not in ("violations", "model_mismatches", "samples")},
         "impl_vs_spec_failures": len(spec_mm),
         "impl_vs_model_disagreements": len(model_mm),
